@@ -7,7 +7,9 @@ import (
 	"os"
 	"path/filepath"
 	"reflect"
+	"regexp"
 	"sort"
+	"strconv"
 	"sync"
 	"unsafe"
 
@@ -154,6 +156,28 @@ func lruInvariant(c *updog.LRUCache) (out string) {
 	return ""
 }
 
+// c04Epoch numbers the executions of a worker; the values that occur in no row ("zz", "nope", "absent") are spelled
+// differently in every execution, so that whatever the code under test memoises process-wide by expression content is
+// cold for them in every explored schedule (the answers do not depend on the spelling of an absent value).
+var c04Epoch int
+
+var c04KeyRE = regexp.MustCompile(`[0-9a-f]+:`)
+
+func freshAbsent(e *model.Expr, epoch int) *model.Expr {
+	switch e.Op {
+	case "eq":
+		if e.Val == "zz" || e.Val == "nope" || e.Val == "absent" {
+			return model.Eq(e.Col, e.Val+strconv.Itoa(epoch))
+		}
+		return e
+	}
+	k := make([]*model.Expr, len(e.Kids))
+	for i, x := range e.Kids {
+		k[i] = freshAbsent(x, epoch)
+	}
+	return &model.Expr{Op: e.Op, Kids: k}
+}
+
 func c04Scenario(w *c04World, p c04Params, outcome *string) vsched.Scenario {
 	al := c04Threads(p.Scenario)
 	want := make([][]string, len(al))
@@ -171,6 +195,7 @@ func c04Scenario(w *c04World, p c04Params, outcome *string) vsched.Scenario {
 	sharedGB := []string{"b", "c", "b"}
 	wantSchema := w.data.Schema()
 	return func() ([]func(), func(*vsched.Result) string) {
+		c04Epoch++
 		cache := w.freshCache(p.Cache)
 		got := make([][]string, len(al))
 		var schemas [][][]string
@@ -190,7 +215,7 @@ func c04Scenario(w *c04World, p c04Params, outcome *string) vsched.Scenario {
 					if p.Scenario == "S7" && len(gb) > 0 {
 						gb = sharedGB
 					}
-					res, err := w.idx.Execute(&updog.Query{Expr: q.Expr.Updog(), GroupBy: gb})
+					res, err := w.idx.Execute(&updog.Query{Expr: freshAbsent(q.Expr, c04Epoch).Updog(), GroupBy: gb})
 					got[t] = append(got[t], renderResult(res, err))
 				}
 			})
@@ -214,7 +239,9 @@ func c04Scenario(w *c04World, p c04Params, outcome *string) vsched.Scenario {
 			if m := lruInvariant(cache); m != "" {
 				return "LRU cache corrupted after the run: " + m
 			}
-			*outcome = cacheDump(cache, false)
+			// outcome class: the contents (not the keys, which contain this execution's spelling of absent values) of the
+			// cache in recency order
+			*outcome = c04KeyRE.ReplaceAllString(cacheDump(cache, false), "")
 			return ""
 		}
 		return bodies, check
